@@ -115,6 +115,9 @@ fn splice(off: usize, del: usize, ins: &[u8]) -> Edit { Edit::Splice { off: off 
 const HUGE_NUMBERS: [&str; 10] = ["-1", "99999999999999999999", "18446744073709551615", "18446744073709551616", "4294967296", "65536", "0x10", "+1", "1e3", ""];
 const INJECT: [(&[u8], &str); 8] = [(&[0xff], "byte_ff"), (&[0xc0, 0x80], "overlong_nul"), (&[0], "nul"), (b"\r", "cr"), (b" ", "space"), (b"\t", "tab"), (&[0xed, 0xa0, 0x80], "lone_surrogate"), (b"\\n", "backslash_n")];
 
+const ESCAPES: [(&str, &str); 12] = [("\\", "backslash"), ("\\\\", "two_backslashes"), ("\\\\\\", "three_backslashes"), ("\\\u{e9}", "backslash_2_byte_char"), ("\\\u{2192}", "backslash_3_byte_char"), ("\\\u{1f600}", "backslash_4_byte_char"),
+    ("\\0", "backslash_0"), ("\\t", "backslash_t"), ("\\r", "backslash_r"), ("\\q", "backslash_q"), ("\\u00e9", "backslash_u"), ("\\\u{301}", "backslash_combining_mark")];
+
 /// token-level mutations of a text seed (every line x every token x every operation for the first `max_lines` lines)
 pub fn text_mutants(seed: &[u8], fmt: Fmt, rng: &mut Rng, max_lines: usize, random_edits: usize) -> Vec<Mutant> {
     let mut out: Vec<Mutant> = vec![];
@@ -153,6 +156,9 @@ pub fn text_mutants(seed: &[u8], fmt: Fmt, rng: &mut Rng, max_lines: usize, rand
             }
             let mid = t.start + (t.end - t.start) / 2;
             for (bytes, name) in INJECT { out.push((vec![splice(mid, 0, bytes)], m("inject", name))); }
+            // the escape character of the text formats in front of everything an unescaper may meet: defined and undefined escapes, characters
+            // of every UTF-8 length (a byte-wise "take the next character" shows only there), the end of the token / of the line
+            for (bytes, name) in ESCAPES { for (pos, at) in [(t.start, "start"), (mid, "mid"), (t.end, "end")] { if at == "mid" || j > 0 { out.push((vec![splice(pos, 0, bytes.as_bytes())], MutInfo::new("token", "escape", format!("{name}@{at}")))); } } }
         }
         out.push((vec![splice(l.end, 0, &[sep, b"extra"].concat())], m("extra_column", "")));
         out.push((vec![splice(l.end, 0, b"\r")], m("crlf_line", "")));
